@@ -15,7 +15,8 @@ META = {
     "assumptions": [
         "Close is called by the writer goroutine after its last write (one writer); rotations never fail",
         "own-step progress is stated from states where the mutex is free (another handler inside its critical section "
-        "first needs its own steps); hint_prop (path table) is proved reachable for the Low-Latency variant",
+        "first needs its own steps) and a writer goroutine that has not panicked; hint_prop (path table) is proved "
+        "reachable for all three variants",
     ],
 }
 
